@@ -1,8 +1,8 @@
 (** Proofs about the round-trip model (lemmas only; the statements are in PropsC11.v). *)
-From Coq Require Import ZArith List Bool String Lia.
+From Coq Require Import ZArith List Bool String Ascii Lia Decimal DecimalString DecimalNat FinFun.
 From MxlBase Require Import ListX.
-From Core Require Import Model.
-From MxlGen Require Import SymRepr MxlGen MxlGenSpec.
+From Core Require Import Sort Model.
+From MxlGen Require Import SymRepr MxlGen MxlGenSpec MxlGenSem.
 Import ListNotations.
 Local Open Scope list_scope.
 
@@ -151,245 +151,416 @@ Proof.
   cbn [N.to_nat]. rewrite SuccNat2Pos.id_succ. reflexivity.
 Qed.
 
+
+(** ---- fresh names: key, key_1, key_2, ... are pairwise different -------------------------- *)
+
+Lemma append_inv_head (s a b : string) : (s ++ a = s ++ b)%string -> a = b.
+Proof. induction s as [|c s IH]; cbn; intros H; [exact H|]. injection H as H. exact (IH H). Qed.
+
+Lemma append_self_nil (s x : string) : (s = s ++ x)%string -> x = EmptyString.
+Proof. induction s as [|c s IH]; cbn; intros H; [symmetry; exact H|]. injection H as H. exact (IH H). Qed.
+
+Lemma dec_inj i j : dec i = dec j -> i = j.
+Proof.
+  unfold dec. intros H. apply (f_equal NilEmpty.uint_of_string) in H. rewrite !NilEmpty.usu in H.
+  injection H as H. apply (f_equal Nat.of_uint) in H. rewrite !Unsigned.of_to in H. exact H.
+Qed.
+
+Lemma cand_inj k : Injective (cand k).
+Proof.
+  intros [|i] [|j] H; cbn [cand] in H.
+  - reflexivity.
+  - apply append_self_nil in H. discriminate.
+  - symmetry in H. apply append_self_nil in H. discriminate.
+  - apply append_inv_head in H. cbn [append] in H. injection H as H. apply dec_inj in H. exact H.
+Qed.
+
+Lemma slookup_In_keys {A} k (d : list (string * A)) p : slookup k d = Some p -> In k (map fst d).
+Proof.
+  induction d as [|[k0 v0] r IH]; cbn; [discriminate|].
+  destruct (String.eqb k k0) eqn:E0; [apply String.eqb_eq in E0; subst; intros _; left; reflexivity|].
+  intros H. right. exact (IH H).
+Qed.
+
+Section FindName.
+  Variable E : Type.
+  Variable same_fn : E * list name -> E * list name -> bool.
+
+  Lemma find_name_none fuel : forall k i p d,
+    find_name E same_fn fuel k i p d = None ->
+    forall j, (i <= j < i + fuel)%nat -> In (cand k j) (map fst d).
+  Proof.
+    induction fuel as [|fuel IH]; intros k i p d H j Hj; [lia|].
+    cbn [find_name] in H. destruct (slookup (cand k i) d) as [q|] eqn:Hl; [|discriminate].
+    destruct (same_fn q p); [discriminate|].
+    destruct (Nat.eq_dec j i) as [->|Hne]; [exact (slookup_In_keys _ _ _ Hl)|].
+    apply (IH k (S i) p d H). lia.
+  Qed.
+
+  (** the fuel of the model (len(functions) + 1) is never exhausted *)
+  Lemma find_name_total k p (d : fdict E) : find_name E same_fn (S (length d)) k 0 p d <> None.
+  Proof.
+    intros H. pose proof (find_name_none _ _ _ _ _ H) as Hin.
+    assert (Hnd : NoDup (map (cand k) (seq 0 (S (length d))))).
+    { apply Injective_map_NoDup; [apply cand_inj|apply seq_NoDup]. }
+    assert (Hincl : incl (map (cand k) (seq 0 (S (length d)))) (map fst d)).
+    { intros x Hx. apply in_map_iff in Hx. destruct Hx as [j [<- Hj]]. apply in_seq in Hj. apply Hin. lia. }
+    pose proof (NoDup_incl_length Hnd Hincl) as Hlen. rewrite !map_length, seq_length in Hlen. lia.
+  Qed.
+
+  Lemma find_name_some fuel : forall k i p d n,
+    find_name E same_fn fuel k i p d = Some n ->
+    slookup n d = None \/ exists q, slookup n d = Some q /\ same_fn q p = true.
+  Proof.
+    induction fuel as [|fuel IH]; intros k i p d n H; [discriminate|].
+    cbn [find_name] in H. destruct (slookup (cand k i) d) as [q|] eqn:Hl.
+    - destruct (same_fn q p) eqn:Hs.
+      + inversion H; subst. right. exists q. split; assumption.
+      + exact (IH _ _ _ _ _ H).
+    - inversion H; subst. left. exact Hl.
+  Qed.
+End FindName.
+
+(** ---- calling a def with argument values that come from ONE environment ------------------- *)
+
+Lemma lookups_length a : forall en vs, lookups a en = Some vs -> length vs = length a.
+Proof.
+  induction a as [|k r IH]; intros en vs H; cbn [lookups] in H.
+  - inversion H; reflexivity.
+  - destruct (lookup k en); [|discriminate]. destruct (lookups r en) eqn:Hr; [|discriminate].
+    inversion H; subst. cbn. rewrite (IH _ _ Hr). reflexivity.
+Qed.
+
+Lemma lookups_ext a : forall (e1 e2 : env), (forall k, In k a -> lookup k e1 = lookup k e2) -> lookups a e1 = lookups a e2.
+Proof.
+  induction a as [|k r IH]; intros e1 e2 H; [reflexivity|]. cbn [lookups].
+  rewrite (H k (or_introl eq_refl)). rewrite (IH e1 e2); [reflexivity|]. intros k' Hk'. apply H. right. exact Hk'.
+Qed.
+
+Lemma lookup_combine_consistent a : forall en vs, lookups a en = Some vs ->
+  forall k, In k a -> lookup k (combine a vs) = lookup k en.
+Proof.
+  induction a as [|k0 r IH]; intros en vs H k Hk; [destruct Hk|].
+  cbn [lookups] in H. destruct (lookup k0 en) as [v0|] eqn:H0; [|discriminate].
+  destruct (lookups r en) as [vr|] eqn:Hr; [|discriminate]. inversion H; subst vs; clear H.
+  cbn [combine lookup]. destruct (N.eqb k k0) eqn:E0.
+  - apply N.eqb_eq in E0. subst. symmetry. exact H0.
+  - destruct Hk as [Hk|Hk]; [subst; rewrite N.eqb_refl in E0; discriminate|]. exact (IH _ _ Hr _ Hk).
+Qed.
+
+(** a repeated name is bound at its first position; values read from one environment agree on
+    repeated names, so the binding reproduces them *)
+Lemma lookups_combine_consistent a en vs : lookups a en = Some vs -> lookups a (combine a vs) = Some vs.
+Proof.
+  intros H. rewrite <- H. apply lookups_ext. intros k Hk. exact (lookup_combine_consistent _ _ _ H _ Hk).
+Qed.
+
+(** ---- exec never reports "generation raised" ------------------------------------------------ *)
+
+Lemma obind_not_genraises {A B} (r : outcome A) (f : A -> outcome B) :
+  r <> GenRaises -> (forall a, f a <> GenRaises) -> obind r f <> GenRaises.
+Proof. destruct r; cbn; intros H1 H2; try discriminate; [apply H2|contradiction]. Qed.
+
+Section NoRaise.
+  Variable E : Type.
+  Lemma resolve_nr (d : fdict E) k : resolve E d k <> GenRaises.
+  Proof. unfold resolve. destruct (sfind k d); discriminate. Qed.
+  Lemma insert_id_nr k ids : insert_id k ids <> GenRaises.
+  Proof. unfold insert_id. destruct (N.eqb k time_name); [discriminate|]. destruct (memN k ids); discriminate. Qed.
+  Lemma resolve_val_nr (d : fdict E) v : resolve_val E d v <> GenRaises.
+  Proof. destruct v; cbn; [discriminate|]. apply obind_not_genraises; [apply resolve_nr|discriminate]. Qed.
+  Lemma resolve_coef_nr (d : fdict E) c : resolve_coef E d c <> GenRaises.
+  Proof. destruct c; cbn; try discriminate. apply obind_not_genraises; [apply resolve_nr|discriminate]. Qed.
+  Lemma resolve_stoich_nr (d : fdict E) st : resolve_stoich E d st <> GenRaises.
+  Proof.
+    induction st as [|[k c] r IH]; cbn [resolve_stoich]; [discriminate|].
+    apply obind_not_genraises; [apply resolve_coef_nr|]. intros c'.
+    apply obind_not_genraises; [exact IH|discriminate].
+  Qed.
+  Lemma exec_op_nr (d : fdict E) op st : exec_op E d op st <> GenRaises.
+  Proof.
+    destruct st as [ids m]. destruct op; cbn [exec_op].
+    - apply obind_not_genraises; [apply resolve_val_nr|]. intros v'.
+      apply obind_not_genraises; [apply insert_id_nr|discriminate].
+    - apply obind_not_genraises; [apply resolve_val_nr|]. intros v'.
+      apply obind_not_genraises; [apply insert_id_nr|discriminate].
+    - apply obind_not_genraises; [apply resolve_nr|]. intros f.
+      apply obind_not_genraises; [apply insert_id_nr|discriminate].
+    - apply obind_not_genraises; [apply resolve_nr|]. intros f.
+      apply obind_not_genraises; [apply resolve_stoich_nr|]. intros sto.
+      apply obind_not_genraises; [apply insert_id_nr|discriminate].
+  Qed.
+  Lemma exec_ops_nr (d : fdict E) ops : forall st, exec_ops E d ops st <> GenRaises.
+  Proof.
+    induction ops as [|op r IH]; intros st; cbn [exec_ops]; [discriminate|].
+    apply obind_not_genraises; [apply exec_op_nr|exact IH].
+  Qed.
+  Lemma exec_code_nr (c : code E) : exec_code E c <> GenRaises.
+  Proof.
+    unfold exec_code. destruct (negb _); [discriminate|].
+    apply obind_not_genraises; [apply exec_ops_nr|discriminate].
+  Qed.
+End NoRaise.
+
 Section Proofs.
   Variable E : Type.
   Variable nstr : name -> string.
   Variable fname : fnid -> string.
   Variable translate : fnid -> list name -> option E.
   Variable eval : E -> env -> option Z.
+  Variable same_fn : E * list name -> E * list name -> bool.
   Variable fsem : fnid -> list Z -> option Z.
-  Variable arity : fnid -> nat.
   (* C06: the expression fn_to_sympy returns for f with the model symbols margs substituted
      evaluates, under any binding, to f's value at the values bound to margs *)
   Hypothesis translate_sound : forall f margs e, translate f margs = Some e ->
     forall en vs, lookups margs en = Some vs -> eval e en = fsem f vs.
-  (* zip(fn_args, model_args, strict=True) *)
-  Hypothesis translate_arity : forall f margs e, translate f margs = Some e -> length margs = arity f.
-  (* a positional call with the wrong number of arguments is a TypeError *)
-  Hypothesis fsem_arity : forall f vs, length vs <> arity f -> fsem f vs = None.
 
-  Lemma defsem_sound f margs e :
-    translate f margs = Some e -> NoDup margs -> forall vs, defsem E eval e margs vs = fsem f vs.
-  Proof.
-    intros Ht Hnd vs. unfold defsem.
-    destruct (Nat.eqb (length vs) (length margs)) eqn:El.
-    - apply Nat.eqb_eq in El. apply (translate_sound _ _ _ Ht). apply lookups_combine; assumption.
-    - apply Nat.eqb_neq in El. symmetry. apply fsem_arity.
-      rewrite <- (translate_arity _ _ _ Ht). exact El.
-  Qed.
+  Definition payload : Type := (E * list name)%type.
 
-  (** ---- what the generator writes and emits, as plain list functions -------------------- *)
+  (** the def emitted for payload [p] serves slot [s]: called with the values of the slot's
+      argument names (read from one environment) it returns what the slot's function returns *)
+  Definition SemOK (s : slot) (p : payload) : Prop :=
+    forall en vs, lookups (sl_args s) en = Some vs -> defsem E eval (fst p) (snd p) vs = fsem (sl_fn s) vs.
 
-  Definition wlist := list (string * (E * list name)).
-
-  Definition val_writes (ks : key_scheme) (l : list (name * symval E)) : wlist :=
-    flat_map (fun kv => match snd kv with
-                        | SVInit s => [(key_of nstr ks (fst kv) (sf_name s), (sf_expr s, sf_args s))]
-                        | SVNum _ => []
-                        end) l.
-  Definition der_writes (ks : key_scheme) (l : list (name * symfn E)) : wlist :=
-    map (fun kv => (key_of nstr ks (fst kv) (sf_name (snd kv)), (sf_expr (snd kv), sf_args (snd kv)))) l.
-  Definition sto_writes (ks : key_scheme) (k : name) (l : list (name * symcoef E)) : wlist :=
-    flat_map (fun kc => match snd kc with
-                        | SCFn s => [(key_of nstr ks k (sf_name s), (sf_expr s, sf_args s))]
-                        | _ => []
-                        end) l.
-  Definition rxn_writes (ksr kss : key_scheme) (l : list (name * symrxn E)) : wlist :=
-    flat_map (fun kv => (key_of nstr ksr (fst kv) (sf_name (sr_fn (snd kv))),
-                         (sf_expr (sr_fn (snd kv)), sf_args (sr_fn (snd kv))))
-                        :: sto_writes kss (fst kv) (sr_st (snd kv))) l.
-
-  Definition valref_of (ks : key_scheme) (k : name) (v : symval E) : valref :=
-    match v with
-    | SVInit s => VInit (key_of nstr ks k (sf_name s)) (sf_args s)
-    | SVNum z => VNum z
-    end.
-  Definition coefref_of (ks : key_scheme) (k : name) (c : symcoef E) : coefref :=
-    match c with
-    | SCFn s => CDerRef (key_of nstr ks k (sf_name s)) (sf_args s)
-    | SCStr n => CStrRef n
-    | SCNum q => CNum q
-    end.
-  Definition var_ops ks (l : list (name * symval E)) : list addop :=
-    map (fun kv => AddVariable (fst kv) (valref_of ks (fst kv) (snd kv))) l.
-  Definition par_ops ks (l : list (name * symval E)) : list addop :=
-    map (fun kv => AddParameter (fst kv) (valref_of ks (fst kv) (snd kv))) l.
-  Definition der_ops ks (l : list (name * symfn E)) : list addop :=
-    map (fun kv => AddDerived (fst kv) (key_of nstr ks (fst kv) (sf_name (snd kv))) (sf_args (snd kv))) l.
-  Definition sto_refs ks k (l : list (name * symcoef E)) : list (name * coefref) :=
-    map (fun kc => (fst kc, coefref_of ks k (snd kc))) l.
-  Definition rxn_ops ksr kss (l : list (name * symrxn E)) : list addop :=
-    map (fun kv => AddReaction (fst kv) (key_of nstr ksr (fst kv) (sf_name (sr_fn (snd kv))))
-                               (sf_args (sr_fn (snd kv))) (sto_refs kss (fst kv) (sr_st (snd kv)))) l.
-
-  Lemma gen_variables_spec ks l d :
-    gen_variables E nstr ks l d = (var_ops ks l, fold_left wr (val_writes ks l) d).
-  Proof.
-    revert d; induction l as [|[k v] r IH]; intros d; [reflexivity|].
-    destruct v as [z|s]; cbn [gen_variables codegen_value]; rewrite IH; reflexivity.
-  Qed.
-
-  Lemma gen_parameters_spec ks l d :
-    gen_parameters E nstr ks l d = (par_ops ks l, fold_left wr (val_writes ks l) d).
-  Proof.
-    revert d; induction l as [|[k v] r IH]; intros d; [reflexivity|].
-    destruct v as [z|s]; cbn [gen_parameters codegen_value]; rewrite IH; reflexivity.
-  Qed.
-
-  Lemma gen_derived_spec ks l d :
-    gen_derived E nstr ks l d = (der_ops ks l, fold_left wr (der_writes ks l) d).
-  Proof.
-    revert d; induction l as [|[k s] r IH]; intros d; [reflexivity|].
-    cbn [gen_derived]. rewrite IH. reflexivity.
-  Qed.
-
-  Lemma gen_stoich_spec ks k l d :
-    gen_stoich E nstr ks k l d = (sto_refs ks k l, fold_left wr (sto_writes ks k l) d).
-  Proof.
-    revert d; induction l as [|[c s] r IH]; intros d; [reflexivity|].
-    destruct s as [q|n|s]; cbn [gen_stoich]; rewrite IH; reflexivity.
-  Qed.
-
-  Lemma gen_reactions_spec ksr kss l d :
-    gen_reactions E nstr ksr kss l d = (rxn_ops ksr kss l, fold_left wr (rxn_writes ksr kss l) d).
-  Proof.
-    revert d; induction l as [|[k rx] r IH]; intros d; [reflexivity|].
-    cbn [gen_reactions]. rewrite gen_stoich_spec. rewrite IH.
-    cbn [rxn_writes flat_map]. rewrite fold_left_app. reflexivity.
-  Qed.
-
-  Definition all_writes (F : gen_facts) (sym : symrepr E) : wlist :=
-    val_writes (gf_var_key F) (sy_var sym) ++ val_writes (gf_par_key F) (sy_par sym)
-    ++ der_writes (gf_der_key F) (sy_der sym) ++ rxn_writes (gf_rxn_key F) (gf_sto_key F) (sy_rxn sym).
-
-  Lemma generate_from_symrepr_spec F sym :
-    generate_from_symrepr E nstr F sym =
-    mkCode (fold_left wr (all_writes F sym) [])
-           (var_ops (gf_var_key F) (sy_var sym) ++ par_ops (gf_par_key F) (sy_par sym)
-            ++ der_ops (gf_der_key F) (sy_der sym) ++ rxn_ops (gf_rxn_key F) (gf_sto_key F) (sy_rxn sym)).
-  Proof.
-    unfold generate_from_symrepr, all_writes.
-    rewrite gen_variables_spec, gen_parameters_spec, gen_derived_spec, gen_reactions_spec.
-    rewrite !fold_left_app. reflexivity.
-  Qed.
-
-  (** ---- writes of the symbolic representation vs. slots of the model -------------------- *)
-
-  Definition ws_rel (w : string * (E * list name)) (s : slot) : Prop :=
+  (** a write of the generator vs. the slot of the source model it comes from *)
+  Definition ws_rel (w : string * payload) (s : slot) : Prop :=
     fst w = sl_key s /\ snd (snd w) = sl_args s
     /\ translate (sl_fn s) (sl_args s) = Some (fst (snd w)).
 
-  Lemma sym_values_writes ks l sl :
+  Lemma ws_SemOK w s : ws_rel w s -> SemOK s (snd w).
+  Proof.
+    destruct w as [k [e a]]. intros [_ [Ha Ht]]. cbn in Ha, Ht. subst a. intros en vs Hl. cbn [fst snd].
+    unfold defsem. rewrite (lookups_length _ _ _ Hl), Nat.eqb_refl.
+    apply (translate_sound _ _ _ Ht). exact (lookups_combine_consistent _ _ _ Hl).
+  Qed.
+
+  (** with pairwise different argument names (and functions that reject a wrong number of
+      arguments) the emitted def IS the function, on all argument vectors *)
+  Lemma defsem_sound (arity : fnid -> nat) f margs e :
+    (forall f margs e, translate f margs = Some e -> length margs = arity f) ->
+    (forall f vs, length vs <> arity f -> fsem f vs = None) ->
+    translate f margs = Some e -> NoDup margs -> forall vs, defsem E eval e margs vs = fsem f vs.
+  Proof.
+    intros Har Hfa Ht Hnd vs. unfold defsem.
+    destruct (Nat.eqb (length vs) (length margs)) eqn:El.
+    - apply Nat.eqb_eq in El. apply (translate_sound _ _ _ Ht). apply lookups_combine; assumption.
+    - apply Nat.eqb_neq in El. symmetry. apply Hfa. rewrite <- (Har _ _ _ Ht). exact El.
+  Qed.
+
+  (** [f] of the source and [f'] of the rebuilt model are interchangeable on the names [a] *)
+  Definition frel (D : fdict E) : fnrel :=
+    fun a f f' => forall en vs, lookups a en = Some vs -> fsem f vs = fsem_gen E eval D f' vs.
+
+  (** ---- one run of the generator, abstractly: what every [register] call guarantees -------- *)
+
+  Section Alloc.
+  Variable rm : register_mode.
+  Variable NameOK : slot -> string -> Prop.
+  Variable InS : slot -> Prop.
+  Variable POK : payload -> Prop.
+
+  Definition Good (d : fdict E) (s : slot) (n : string) : Prop :=
+    NameOK s n /\ exists p, slookup n d = Some p /\ SemOK s p.
+  Definition Ext (d d' : fdict E) : Prop := forall s n, InS s -> Good d s n -> Good d' s n.
+  Definition DictOK (d : fdict E) : Prop := forall x, In x d -> POK (snd x).
+
+  Hypothesis reg_spec : forall w s d, InS s -> ws_rel w s ->
+    exists n, register E same_fn rm (fst w) (snd w) d = (n, sdset n (snd w) d)
+              /\ NameOK s n /\ POK (snd w)
+              /\ (forall s0, InS s0 -> Good d s0 n -> SemOK s0 (snd w)).
+
+  Lemma Ext_refl d : Ext d d.
+  Proof. intros s n _ H. exact H. Qed.
+  Lemma Ext_trans d1 d2 d3 : Ext d1 d2 -> Ext d2 d3 -> Ext d1 d3.
+  Proof. intros H1 H2 s n Hs H. apply H2; [exact Hs|]. apply H1; assumption. Qed.
+
+  Lemma reg_step k e a f d :
+    InS (mkSlot k f a) -> translate f a = Some e ->
+    exists n d1, register E same_fn rm k (e, a) d = (n, d1)
+                 /\ Good d1 (mkSlot k f a) n /\ Ext d d1 /\ (DictOK d -> DictOK d1).
+  Proof.
+    intros Hin Ht.
+    destruct (reg_spec (k, (e, a)) (mkSlot k f a) d Hin) as [n [Hreg [Hname [Hpok Hstab]]]].
+    { split; [reflexivity|split; [reflexivity|exact Ht]]. }
+    cbn [fst snd] in *. exists n, (sdset n (e, a) d). split; [exact Hreg|]. split; [|split].
+    - split; [exact Hname|]. exists (e, a). split; [rewrite slookup_sdset, String.eqb_refl; reflexivity|].
+      apply (ws_SemOK (k, (e, a)) (mkSlot k f a)). split; [reflexivity|split; [reflexivity|exact Ht]].
+    - intros s0 n0 Hs0 [Hn0 [p0 [Hl0 Hsem0]]]. split; [exact Hn0|].
+      rewrite slookup_sdset. destruct (String.eqb n0 n) eqn:E0.
+      + apply String.eqb_eq in E0. subst n0. exists (e, a). split; [reflexivity|].
+        apply Hstab; [exact Hs0|]. split; [exact Hn0|]. exists p0. split; assumption.
+      + exists p0. split; assumption.
+    - intros Hd x Hx. apply sdset_In in Hx. destruct Hx as [Hx|Hx]; [subst x; exact Hpok|exact (Hd x Hx)].
+  Qed.
+
+  (** what the emitted chain says about a component, relative to the FINAL dict [D] *)
+  Definition valref_ok (D : fdict E) (ks : key_scheme) (kv : name * valia) (vr : valref) : Prop :=
+    match snd kv with
+    | Plain z => vr = VNum z
+    | IA f a => exists n, vr = VInit n a /\ Good D (mkSlot (key_of nstr ks (fst kv) (fname f)) f a) n
+    end.
+  Definition var_op_ok D ks (kv : name * valia) (op : addop) : Prop :=
+    exists vr, op = AddVariable (fst kv) vr /\ valref_ok D ks kv vr.
+  Definition par_op_ok D ks (kv : name * valia) (op : addop) : Prop :=
+    exists vr, op = AddParameter (fst kv) vr /\ valref_ok D ks kv vr.
+  Definition der_op_ok D ks (kv : name * derived) (op : addop) : Prop :=
+    exists n, op = AddDerived (fst kv) n (d_args (snd kv))
+              /\ Good D (mkSlot (key_of nstr ks (fst kv) (fname (d_fn (snd kv)))) (d_fn (snd kv)) (d_args (snd kv))) n.
+  Definition coefref_ok D ks (k : name) (kc : name * coef) (cr : name * coefref) : Prop :=
+    fst cr = fst kc /\
+    match snd kc with
+    | CStat q => snd cr = CNum q
+    | CDyn f a => exists n, snd cr = CDerRef n a /\ Good D (mkSlot (key_of nstr ks k (fname f)) f a) n
+    end.
+  Definition rxn_op_ok D ksr kss (kv : name * reaction) (op : addop) : Prop :=
+    exists n sto, op = AddReaction (fst kv) n (r_args (snd kv)) sto
+      /\ Good D (mkSlot (key_of nstr ksr (fst kv) (fname (r_fn (snd kv)))) (r_fn (snd kv)) (r_args (snd kv))) n
+      /\ Forall2 (coefref_ok D kss (fst kv)) (r_st (snd kv)) sto.
+
+  Lemma gen_variables_ok ks : forall l sl,
     sym_values E fname translate l = Some sl ->
-    Forall2 ws_rel (val_writes ks sl) (val_slots nstr fname ks l).
+    (forall s, In s (val_slots nstr fname ks l) -> InS s) ->
+    forall d, exists ops d', gen_variables E nstr same_fn rm ks sl d = (ops, d')
+      /\ Ext d d' /\ (DictOK d -> DictOK d')
+      /\ forall D, Ext d' D -> Forall2 (var_op_ok D ks) l ops.
   Proof.
-    revert sl; induction l as [|[k v] r IH]; intros sl H; simpl in H.
-    - inversion H; subst. constructor.
-    - destruct (sym_value E fname translate v) eqn:Hv; [|discriminate].
-      destruct (sym_values E fname translate r) eqn:Hr; [|discriminate].
-      inversion H; subst; clear H. specialize (IH _ eq_refl).
+    induction l as [|[k v] r IH]; intros sl Hs Hin d; simpl in Hs.
+    - inversion Hs; subst. exists [], d. split; [reflexivity|]. split; [apply Ext_refl|]. split; [tauto|]. constructor.
+    - destruct (sym_value E fname translate v) as [s|] eqn:Hv; [|discriminate].
+      destruct (sym_values E fname translate r) as [sr|] eqn:Hr; [|discriminate].
+      inversion Hs; subst sl; clear Hs.
       destruct v as [z|f a]; simpl in Hv.
-      + inversion Hv; subst. exact IH.
-      + unfold fn_to_symbolic_repr in Hv. destruct (translate f a) eqn:Ht; [|discriminate].
-        inversion Hv; subst. cbn. constructor; [|exact IH].
-        split; [reflexivity|split; [reflexivity|exact Ht]].
+      + inversion Hv; subst s; clear Hv.
+        destruct (IH _ eq_refl (fun s Hs => Hin s Hs) d) as [ops [d' [Hg [He [Hd Hok]]]]].
+        exists (AddVariable k (VNum z) :: ops), d'. cbn [gen_variables codegen_value]. rewrite Hg.
+        split; [reflexivity|]. split; [exact He|]. split; [exact Hd|]. intros D HD.
+        constructor; [|exact (Hok D HD)]. exists (VNum z). split; reflexivity.
+      + unfold fn_to_symbolic_repr in Hv. destruct (translate f a) as [e|] eqn:Ht; [|discriminate].
+        inversion Hv; subst s; clear Hv.
+        destruct (reg_step (key_of nstr ks k (fname f)) e a f d) as [n [d1 [Hreg [Hgood [He1 Hd1]]]]];
+          [apply Hin; cbn; left; reflexivity|exact Ht|].
+        destruct (IH _ eq_refl (fun s Hs => Hin s (or_intror Hs)) d1) as [ops [d' [Hg [He [Hd Hok]]]]].
+        exists (AddVariable k (VInit n a) :: ops), d'.
+        cbn [gen_variables codegen_value sf_name sf_expr sf_args]. rewrite Hreg, Hg.
+        split; [reflexivity|]. split; [exact (Ext_trans _ _ _ He1 He)|]. split; [tauto|]. intros D HD.
+        constructor; [|exact (Hok D HD)]. exists (VInit n a). split; [reflexivity|].
+        cbn. exists n. split; [reflexivity|]. apply HD; [apply Hin; cbn; left; reflexivity|].
+        apply He; [apply Hin; cbn; left; reflexivity|exact Hgood].
   Qed.
 
-  Lemma sym_derived_writes ks l sl :
+  Lemma gen_parameters_ok ks : forall l sl,
+    sym_values E fname translate l = Some sl ->
+    (forall s, In s (val_slots nstr fname ks l) -> InS s) ->
+    forall d, exists ops d', gen_parameters E nstr same_fn rm ks sl d = (ops, d')
+      /\ Ext d d' /\ (DictOK d -> DictOK d')
+      /\ forall D, Ext d' D -> Forall2 (par_op_ok D ks) l ops.
+  Proof.
+    induction l as [|[k v] r IH]; intros sl Hs Hin d; simpl in Hs.
+    - inversion Hs; subst. exists [], d. split; [reflexivity|]. split; [apply Ext_refl|]. split; [tauto|]. constructor.
+    - destruct (sym_value E fname translate v) as [s|] eqn:Hv; [|discriminate].
+      destruct (sym_values E fname translate r) as [sr|] eqn:Hr; [|discriminate].
+      inversion Hs; subst sl; clear Hs.
+      destruct v as [z|f a]; simpl in Hv.
+      + inversion Hv; subst s; clear Hv.
+        destruct (IH _ eq_refl (fun s Hs => Hin s Hs) d) as [ops [d' [Hg [He [Hd Hok]]]]].
+        exists (AddParameter k (VNum z) :: ops), d'. cbn [gen_parameters codegen_value]. rewrite Hg.
+        split; [reflexivity|]. split; [exact He|]. split; [exact Hd|]. intros D HD.
+        constructor; [|exact (Hok D HD)]. exists (VNum z). split; reflexivity.
+      + unfold fn_to_symbolic_repr in Hv. destruct (translate f a) as [e|] eqn:Ht; [|discriminate].
+        inversion Hv; subst s; clear Hv.
+        destruct (reg_step (key_of nstr ks k (fname f)) e a f d) as [n [d1 [Hreg [Hgood [He1 Hd1]]]]];
+          [apply Hin; cbn; left; reflexivity|exact Ht|].
+        destruct (IH _ eq_refl (fun s Hs => Hin s (or_intror Hs)) d1) as [ops [d' [Hg [He [Hd Hok]]]]].
+        exists (AddParameter k (VInit n a) :: ops), d'.
+        cbn [gen_parameters codegen_value sf_name sf_expr sf_args]. rewrite Hreg, Hg.
+        split; [reflexivity|]. split; [exact (Ext_trans _ _ _ He1 He)|]. split; [tauto|]. intros D HD.
+        constructor; [|exact (Hok D HD)]. exists (VInit n a). split; [reflexivity|].
+        cbn. exists n. split; [reflexivity|]. apply HD; [apply Hin; cbn; left; reflexivity|].
+        apply He; [apply Hin; cbn; left; reflexivity|exact Hgood].
+  Qed.
+
+  Lemma gen_derived_ok ks : forall l sl,
     sym_derived E fname translate l = Some sl ->
-    Forall2 ws_rel (der_writes ks sl) (der_slots nstr fname ks l).
+    (forall s, In s (der_slots nstr fname ks l) -> InS s) ->
+    forall d, exists ops d', gen_derived E nstr same_fn rm ks sl d = (ops, d')
+      /\ Ext d d' /\ (DictOK d -> DictOK d')
+      /\ forall D, Ext d' D -> Forall2 (der_op_ok D ks) l ops.
   Proof.
-    revert sl; induction l as [|[k [f a]] r IH]; intros sl H; simpl in H.
-    - inversion H; subst. constructor.
-    - unfold fn_to_symbolic_repr in H. destruct (translate f a) eqn:Ht; [|discriminate].
-      destruct (sym_derived E fname translate r) eqn:Hr; [|discriminate].
-      inversion H; subst; clear H. cbn. constructor; [|apply IH; reflexivity].
-      split; [reflexivity|split; [reflexivity|exact Ht]].
+    induction l as [|[k [f a]] r IH]; intros sl Hs Hin d; simpl in Hs.
+    - inversion Hs; subst. exists [], d. split; [reflexivity|]. split; [apply Ext_refl|]. split; [tauto|]. constructor.
+    - unfold fn_to_symbolic_repr in Hs. destruct (translate f a) as [e|] eqn:Ht; [|discriminate].
+      destruct (sym_derived E fname translate r) as [sr|] eqn:Hr; [|discriminate].
+      inversion Hs; subst sl; clear Hs.
+      destruct (reg_step (key_of nstr ks k (fname f)) e a f d) as [n [d1 [Hreg [Hgood [He1 Hd1]]]]];
+        [apply Hin; cbn; left; reflexivity|exact Ht|].
+      destruct (IH _ eq_refl (fun s Hs => Hin s (or_intror Hs)) d1) as [ops [d' [Hg [He [Hd Hok]]]]].
+      exists (AddDerived k n a :: ops), d'.
+      cbn [gen_derived sf_name sf_expr sf_args]. rewrite Hreg, Hg.
+      split; [reflexivity|]. split; [exact (Ext_trans _ _ _ He1 He)|]. split; [tauto|]. intros D HD.
+      constructor; [|exact (Hok D HD)]. exists n. split; [reflexivity|].
+      cbn. apply HD; [apply Hin; cbn; left; reflexivity|].
+      apply He; [apply Hin; cbn; left; reflexivity|exact Hgood].
   Qed.
 
-  Lemma sym_stoich_writes ks k l sl :
-    sym_stoich E fname translate l = Some sl ->
-    Forall2 ws_rel (sto_writes ks k sl) (sto_slots nstr fname ks k l).
+  Lemma gen_stoich_ok ks k : forall st sst,
+    sym_stoich E fname translate st = Some sst ->
+    (forall s, In s (sto_slots nstr fname ks k st) -> InS s) ->
+    forall d, exists refs d', gen_stoich E nstr same_fn rm ks k sst d = (refs, d')
+      /\ Ext d d' /\ (DictOK d -> DictOK d')
+      /\ forall D, Ext d' D -> Forall2 (coefref_ok D ks k) st refs.
   Proof.
-    revert sl; induction l as [|[c v] r IH]; intros sl H; simpl in H.
-    - inversion H; subst. constructor.
-    - destruct (sym_coef E fname translate v) eqn:Hv; [|discriminate].
-      destruct (sym_stoich E fname translate r) eqn:Hr; [|discriminate].
-      inversion H; subst; clear H. specialize (IH _ eq_refl).
+    induction st as [|[c v] r IH]; intros sst Hs Hin d; simpl in Hs.
+    - inversion Hs; subst. exists [], d. split; [reflexivity|]. split; [apply Ext_refl|]. split; [tauto|]. constructor.
+    - destruct (sym_coef E fname translate v) as [sc|] eqn:Hv; [|discriminate].
+      destruct (sym_stoich E fname translate r) as [sr|] eqn:Hr; [|discriminate].
+      inversion Hs; subst sst; clear Hs.
       destruct v as [q|f a]; simpl in Hv.
-      + inversion Hv; subst. exact IH.
-      + unfold fn_to_symbolic_repr in Hv. destruct (translate f a) eqn:Ht; [|discriminate].
-        inversion Hv; subst. cbn. constructor; [|exact IH].
-        split; [reflexivity|split; [reflexivity|exact Ht]].
+      + inversion Hv; subst sc; clear Hv.
+        destruct (IH _ eq_refl (fun s Hs => Hin s Hs) d) as [refs [d' [Hg [He [Hd Hok]]]]].
+        exists ((c, CNum q) :: refs), d'. cbn [gen_stoich]. rewrite Hg.
+        split; [reflexivity|]. split; [exact He|]. split; [exact Hd|]. intros D HD.
+        constructor; [|exact (Hok D HD)]. split; reflexivity.
+      + unfold fn_to_symbolic_repr in Hv. destruct (translate f a) as [e|] eqn:Ht; [|discriminate].
+        inversion Hv; subst sc; clear Hv.
+        destruct (reg_step (key_of nstr ks k (fname f)) e a f d) as [n [d1 [Hreg [Hgood [He1 Hd1]]]]];
+          [apply Hin; cbn; left; reflexivity|exact Ht|].
+        destruct (IH _ eq_refl (fun s Hs => Hin s (or_intror Hs)) d1) as [refs [d' [Hg [He [Hd Hok]]]]].
+        exists ((c, CDerRef n a) :: refs), d'.
+        cbn [gen_stoich sf_name sf_expr sf_args]. rewrite Hreg, Hg.
+        split; [reflexivity|]. split; [exact (Ext_trans _ _ _ He1 He)|]. split; [tauto|]. intros D HD.
+        constructor; [|exact (Hok D HD)]. split; [reflexivity|].
+        cbn. exists n. split; [reflexivity|]. apply HD; [apply Hin; cbn; left; reflexivity|].
+        apply He; [apply Hin; cbn; left; reflexivity|exact Hgood].
   Qed.
 
-  Lemma sym_reactions_writes ksr kss l sl :
+  Lemma gen_reactions_ok ksr kss : forall l sl,
     sym_reactions E fname translate l = Some sl ->
-    Forall2 ws_rel (rxn_writes ksr kss sl) (rxn_slots nstr fname ksr kss l).
+    (forall s, In s (rxn_slots nstr fname ksr kss l) -> InS s) ->
+    forall d, exists ops d', gen_reactions E nstr same_fn rm ksr kss sl d = (ops, d')
+      /\ Ext d d' /\ (DictOK d -> DictOK d')
+      /\ forall D, Ext d' D -> Forall2 (rxn_op_ok D ksr kss) l ops.
   Proof.
-    revert sl; induction l as [|[k [f a st]] r IH]; intros sl H; simpl in H.
-    - inversion H; subst. constructor.
-    - unfold fn_to_symbolic_repr in H. destruct (translate f a) eqn:Ht; [|discriminate].
-      destruct (sym_stoich E fname translate st) eqn:Hs; [|discriminate].
-      destruct (sym_reactions E fname translate r) eqn:Hr; [|discriminate].
-      inversion H; subst; clear H. cbn.
-      constructor; [split; [reflexivity|split; [reflexivity|exact Ht]]|].
-      apply Forall2_app; [apply sym_stoich_writes; exact Hs | apply IH; reflexivity].
-  Qed.
-
-  Lemma to_symbolic_repr_writes F m sym :
-    to_symbolic_repr E fname translate m = Some sym ->
-    Forall2 ws_rel (all_writes F sym) (slots nstr fname F m).
-  Proof.
-    unfold to_symbolic_repr. intros H.
-    destruct (sym_values E fname translate (m_var m)) eqn:H1; [|discriminate].
-    destruct (sym_values E fname translate (m_par m)) eqn:H2; [|discriminate].
-    destruct (sym_derived E fname translate (m_der m)) eqn:H3; [|discriminate].
-    destruct (sym_reactions E fname translate (m_rxn m)) eqn:H4; [|discriminate].
-    inversion H; subst; clear H. unfold all_writes, slots. cbn [sy_var sy_par sy_der sy_rxn].
-    repeat apply Forall2_app.
-    - apply sym_values_writes; exact H1.
-    - apply sym_values_writes; exact H2.
-    - apply sym_derived_writes; exact H3.
-    - apply sym_reactions_writes; exact H4.
-  Qed.
-
-  (** ---- every slot resolves to a definition with the slot's own meaning ------------------ *)
-
-  Definition frel (D : fdict E) (f f' : fnid) : Prop := forall vs, fsem f vs = fsem_gen E eval D f' vs.
-  Definition ROK (D : fdict E) (s : slot) : Prop :=
-    exists f', resolve E D (sl_key s) = Built f' /\ frel D (sl_fn s) f'.
-
-  Lemma resolve_ok Wl SL :
-    Forall2 ws_rel Wl SL ->
-    (forall s, In s SL -> NoDup (sl_args s)) ->
-    (forall s1 s2, In s1 SL -> In s2 SL -> sl_key s1 = sl_key s2 -> forall vs, fsem (sl_fn s1) vs = fsem (sl_fn s2) vs) ->
-    forall s, In s SL -> ROK (fold_left wr Wl []) s.
-  Proof.
-    intros HF Hnd Hndf s Hs.
-    destruct (Forall2_In_r _ _ _ _ HF Hs) as [[wk wp] [Hw [Hk [_ _]]]]. cbn in Hk. subst wk.
-    destruct (find_last_some _ _ _ Hw) as [p Hp].
-    assert (Hl : slookup (sl_key s) (fold_left wr Wl []) = Some p) by (rewrite slookup_writes, Hp; reflexivity).
-    destruct (slookup_sfind _ _ _ Hl) as [i [Hi Hn]].
-    exists (N.of_nat (S i)). split.
-    - unfold resolve. rewrite Hi. reflexivity.
-    - intros vs. rewrite fsem_gen_S, Hn.
-      apply find_last_In in Hp.
-      destruct (Forall2_In_l _ _ _ _ HF Hp) as [s' [Hs' [Hk' [Ha' Ht']]]]. cbn in Hk', Ha', Ht'.
-      destruct p as [b ps]. cbn in Ha', Ht'. subst ps.
-      rewrite (defsem_sound _ _ _ Ht' (Hnd _ Hs')).
-      apply Hndf; [exact Hs|exact Hs'|exact Hk'].
-  Qed.
-
-  Lemma compile_ok Wl SL :
-    Forall2 ws_rel Wl SL ->
-    (forall s, In s SL -> NoDup (sl_args s)) ->
-    defs_compile E (fold_left wr Wl []) = true.
-  Proof.
-    intros HF Hnd. unfold defs_compile. apply forallb_forall. intros x Hx.
-    apply writes_In in Hx. destruct Hx as [Hx|[]].
-    destruct (Forall2_In_l _ _ _ _ HF Hx) as [s' [Hs' [_ [Ha' _]]]].
-    destruct x as [xk [xb xa]]. cbn in Ha' |- *. subst xa. apply nodupN_true. apply Hnd. exact Hs'.
+    induction l as [|[k [f a st]] r IH]; intros sl Hs Hin d; simpl in Hs.
+    - inversion Hs; subst. exists [], d. split; [reflexivity|]. split; [apply Ext_refl|]. split; [tauto|]. constructor.
+    - unfold fn_to_symbolic_repr in Hs. destruct (translate f a) as [e|] eqn:Ht; [|discriminate].
+      destruct (sym_stoich E fname translate st) as [sst|] eqn:Hst; [|discriminate].
+      destruct (sym_reactions E fname translate r) as [sr|] eqn:Hr; [|discriminate].
+      inversion Hs; subst sl; clear Hs.
+      destruct (reg_step (key_of nstr ksr k (fname f)) e a f d) as [n [d1 [Hreg [Hgood [He1 Hd1]]]]];
+        [apply Hin; cbn; left; reflexivity|exact Ht|].
+      destruct (gen_stoich_ok kss k st sst Hst) with (d := d1) as [refs [d2 [Hgs [He2 [Hd2 Hoks]]]]].
+      { intros s Hs. apply Hin. cbn. right. apply in_or_app. left. exact Hs. }
+      destruct (IH _ eq_refl (fun s Hs => Hin s (or_intror (in_or_app _ _ _ (or_intror Hs)))) d2)
+        as [ops [d' [Hg [He [Hd Hok]]]]].
+      exists (AddReaction k n a refs :: ops), d'.
+      cbn [gen_reactions sr_fn sr_st sf_name sf_expr sf_args]. rewrite Hreg, Hgs, Hg.
+      split; [reflexivity|]. split; [exact (Ext_trans _ _ _ He1 (Ext_trans _ _ _ He2 He))|]. split; [tauto|].
+      intros D HD. constructor; [|exact (Hok D HD)].
+      exists n, refs. split; [reflexivity|]. split.
+      + cbn. apply HD; [apply Hin; cbn; left; reflexivity|].
+        apply He; [apply Hin; cbn; left; reflexivity|].
+        apply He2; [apply Hin; cbn; left; reflexivity|exact Hgood].
+      + apply Hoks. exact (Ext_trans _ _ _ He HD).
   Qed.
 
   (** ---- running the builder chain -------------------------------------------------------- *)
@@ -415,6 +586,14 @@ Section Proofs.
   Section Exec.
   Variable D : fdict E.
 
+  Lemma Good_resolve s n : Good D s n ->
+    exists f', resolve E D n = Built f' /\ frel D (sl_args s) (sl_fn s) f'.
+  Proof.
+    intros [_ [p [Hl Hsem]]]. destruct (slookup_sfind _ _ _ Hl) as [i [Hi Hn]].
+    exists (N.of_nat (S i)). split; [unfold resolve; rewrite Hi; reflexivity|].
+    intros en vs Hvs. rewrite fsem_gen_S, Hn. destruct p as [b ps]. symmetry. exact (Hsem en vs Hvs).
+  Qed.
+
   Definition set_var (m : model) (v : list (name * valia)) : model :=
     mkModel (m_par m) v (m_der m) (m_rxn m) (m_sur m) (m_ro m) (m_dat m).
   Definition set_par (m : model) (v : list (name * valia)) : model :=
@@ -424,170 +603,121 @@ Section Proofs.
   Definition set_rxn (m : model) (v : list (name * reaction)) : model :=
     mkModel (m_par m) (m_var m) (m_der m) v (m_sur m) (m_ro m) (m_dat m).
 
-  Lemma exec_vars ks : forall l sl,
-    sym_values E fname translate l = Some sl ->
-    (forall s, In s (val_slots nstr fname ks l) -> ROK D s) ->
+  Lemma exec_vars ks : forall l ops, Forall2 (var_op_ok D ks) l ops ->
     forall ids m0, fresh (keys l) ids ->
-    exists vs', exec_ops E D (var_ops ks sl) (ids, m0) = Built (rev (keys l) ++ ids, set_var m0 (m_var m0 ++ vs'))
+    exists vs', exec_ops E D ops (ids, m0) = Built (rev (keys l) ++ ids, set_var m0 (m_var m0 ++ vs'))
                 /\ Forall2 (val_rel (frel D)) l vs'.
   Proof.
-    induction l as [|[k v] r IH]; intros sl Hs Hrok ids m0 Hf; simpl in Hs.
-    - inversion Hs; subst. exists []. split; [|constructor].
-      cbn. unfold set_var. rewrite app_nil_r. destruct m0; reflexivity.
-    - destruct (sym_value E fname translate v) as [s|] eqn:Hv; [|discriminate].
-      destruct (sym_values E fname translate r) as [sr|] eqn:Hr; [|discriminate].
-      inversion Hs; subst sl; clear Hs.
-      cbn [keys map fst] in Hf. apply fresh_tail in Hf. destruct Hf as [Hk1 [Hk2 Hf]].
-      destruct v as [z|f a]; simpl in Hv.
-      + inversion Hv; subst s; clear Hv.
-        destruct (IH _ eq_refl (fun s Hs => Hrok s Hs) (k :: ids) (set_var m0 (m_var m0 ++ [(k, Plain z)])) Hf)
-          as [vs' [Hex Hrel]].
+    induction 1 as [|[k v] op r ops [vr [Hop Hvr]] _ IH]; intros ids m0 Hf.
+    - exists []. split; [|constructor]. cbn. unfold set_var. rewrite app_nil_r. destruct m0; reflexivity.
+    - cbn [keys map fst] in Hf. apply fresh_tail in Hf. destruct Hf as [Hk1 [Hk2 Hf]].
+      cbn [fst] in Hop. subst op. unfold valref_ok in Hvr. cbn [fst snd] in Hvr.
+      destruct v as [z|f a].
+      + subst vr.
+        destruct (IH (k :: ids) (set_var m0 (m_var m0 ++ [(k, Plain z)])) Hf) as [vs' [Hex Hrel]].
         exists ((k, Plain z) :: vs'). split.
-        * cbn [var_ops map fst snd valref_of exec_ops exec_op resolve_val obind].
+        * cbn [exec_ops exec_op resolve_val obind].
           rewrite (insert_id_ok _ _ Hk1 Hk2). cbn [obind].
-          fold (set_var m0 (m_var m0 ++ [(k, Plain z)])). fold (var_ops ks sr). rewrite Hex.
+          fold (set_var m0 (m_var m0 ++ [(k, Plain z)])). rewrite Hex.
           cbn [keys map fst rev]. unfold set_var; cbn [m_par m_var m_der m_rxn m_sur m_ro m_dat].
           rewrite <- !app_assoc. reflexivity.
         * constructor; [split; reflexivity|exact Hrel].
-      + unfold fn_to_symbolic_repr in Hv. destruct (translate f a) eqn:Ht; [|discriminate].
-        inversion Hv; subst s; clear Hv.
-        destruct (Hrok (mkSlot (key_of nstr ks k (fname f)) f a)) as [f' [Hres HR]]; [cbn; left; reflexivity|].
-        cbn [sl_key sl_fn] in Hres, HR.
-        destruct (IH _ eq_refl (fun s Hs => Hrok s (or_intror Hs)) (k :: ids) (set_var m0 (m_var m0 ++ [(k, IA f' a)])) Hf)
-          as [vs' [Hex Hrel]].
+      + destruct Hvr as [n [-> Hgood]]. destruct (Good_resolve _ _ Hgood) as [f' [Hres HR]].
+        cbn [sl_args sl_fn] in HR.
+        destruct (IH (k :: ids) (set_var m0 (m_var m0 ++ [(k, IA f' a)])) Hf) as [vs' [Hex Hrel]].
         exists ((k, IA f' a) :: vs'). split.
-        * cbn [var_ops map fst snd valref_of sf_name sf_args exec_ops exec_op resolve_val obind].
-          rewrite Hres. cbn [obind].
+        * cbn [exec_ops exec_op resolve_val obind]. rewrite Hres. cbn [obind].
           rewrite (insert_id_ok _ _ Hk1 Hk2). cbn [obind].
-          fold (set_var m0 (m_var m0 ++ [(k, IA f' a)])). fold (var_ops ks sr). rewrite Hex.
+          fold (set_var m0 (m_var m0 ++ [(k, IA f' a)])). rewrite Hex.
           cbn [keys map fst rev]. unfold set_var; cbn [m_par m_var m_der m_rxn m_sur m_ro m_dat].
           rewrite <- !app_assoc. reflexivity.
         * constructor; [split; [reflexivity|split; [exact HR|reflexivity]]|exact Hrel].
   Qed.
-  Lemma exec_pars ks : forall l sl,
-    sym_values E fname translate l = Some sl ->
-    (forall s, In s (val_slots nstr fname ks l) -> ROK D s) ->
+
+  Lemma exec_pars ks : forall l ops, Forall2 (par_op_ok D ks) l ops ->
     forall ids m0, fresh (keys l) ids ->
-    exists vs', exec_ops E D (par_ops ks sl) (ids, m0) = Built (rev (keys l) ++ ids, set_par m0 (m_par m0 ++ vs'))
+    exists vs', exec_ops E D ops (ids, m0) = Built (rev (keys l) ++ ids, set_par m0 (m_par m0 ++ vs'))
                 /\ Forall2 (val_rel (frel D)) l vs'.
   Proof.
-    induction l as [|[k v] r IH]; intros sl Hs Hrok ids m0 Hf; simpl in Hs.
-    - inversion Hs; subst. exists []. split; [|constructor].
-      cbn. unfold set_par. rewrite app_nil_r. destruct m0; reflexivity.
-    - destruct (sym_value E fname translate v) as [s|] eqn:Hv; [|discriminate].
-      destruct (sym_values E fname translate r) as [sr|] eqn:Hr; [|discriminate].
-      inversion Hs; subst sl; clear Hs.
-      cbn [keys map fst] in Hf. apply fresh_tail in Hf. destruct Hf as [Hk1 [Hk2 Hf]].
-      destruct v as [z|f a]; simpl in Hv.
-      + inversion Hv; subst s; clear Hv.
-        destruct (IH _ eq_refl (fun s Hs => Hrok s Hs) (k :: ids) (set_par m0 (m_par m0 ++ [(k, Plain z)])) Hf)
-          as [vs' [Hex Hrel]].
+    induction 1 as [|[k v] op r ops [vr [Hop Hvr]] _ IH]; intros ids m0 Hf.
+    - exists []. split; [|constructor]. cbn. unfold set_par. rewrite app_nil_r. destruct m0; reflexivity.
+    - cbn [keys map fst] in Hf. apply fresh_tail in Hf. destruct Hf as [Hk1 [Hk2 Hf]].
+      cbn [fst] in Hop. subst op. unfold valref_ok in Hvr. cbn [fst snd] in Hvr.
+      destruct v as [z|f a].
+      + subst vr.
+        destruct (IH (k :: ids) (set_par m0 (m_par m0 ++ [(k, Plain z)])) Hf) as [vs' [Hex Hrel]].
         exists ((k, Plain z) :: vs'). split.
-        * cbn [par_ops map fst snd valref_of exec_ops exec_op resolve_val obind].
+        * cbn [exec_ops exec_op resolve_val obind].
           rewrite (insert_id_ok _ _ Hk1 Hk2). cbn [obind].
-          fold (set_par m0 (m_par m0 ++ [(k, Plain z)])). fold (par_ops ks sr). rewrite Hex.
+          fold (set_par m0 (m_par m0 ++ [(k, Plain z)])). rewrite Hex.
           cbn [keys map fst rev]. unfold set_par; cbn [m_par m_var m_der m_rxn m_sur m_ro m_dat].
           rewrite <- !app_assoc. reflexivity.
         * constructor; [split; reflexivity|exact Hrel].
-      + unfold fn_to_symbolic_repr in Hv. destruct (translate f a) eqn:Ht; [|discriminate].
-        inversion Hv; subst s; clear Hv.
-        destruct (Hrok (mkSlot (key_of nstr ks k (fname f)) f a)) as [f' [Hres HR]]; [cbn; left; reflexivity|].
-        cbn [sl_key sl_fn] in Hres, HR.
-        destruct (IH _ eq_refl (fun s Hs => Hrok s (or_intror Hs)) (k :: ids) (set_par m0 (m_par m0 ++ [(k, IA f' a)])) Hf)
-          as [vs' [Hex Hrel]].
+      + destruct Hvr as [n [-> Hgood]]. destruct (Good_resolve _ _ Hgood) as [f' [Hres HR]].
+        cbn [sl_args sl_fn] in HR.
+        destruct (IH (k :: ids) (set_par m0 (m_par m0 ++ [(k, IA f' a)])) Hf) as [vs' [Hex Hrel]].
         exists ((k, IA f' a) :: vs'). split.
-        * cbn [par_ops map fst snd valref_of sf_name sf_args exec_ops exec_op resolve_val obind].
-          rewrite Hres. cbn [obind].
+        * cbn [exec_ops exec_op resolve_val obind]. rewrite Hres. cbn [obind].
           rewrite (insert_id_ok _ _ Hk1 Hk2). cbn [obind].
-          fold (set_par m0 (m_par m0 ++ [(k, IA f' a)])). fold (par_ops ks sr). rewrite Hex.
+          fold (set_par m0 (m_par m0 ++ [(k, IA f' a)])). rewrite Hex.
           cbn [keys map fst rev]. unfold set_par; cbn [m_par m_var m_der m_rxn m_sur m_ro m_dat].
           rewrite <- !app_assoc. reflexivity.
         * constructor; [split; [reflexivity|split; [exact HR|reflexivity]]|exact Hrel].
   Qed.
 
-  Lemma exec_ders ks : forall l sl,
-    sym_derived E fname translate l = Some sl ->
-    (forall s, In s (der_slots nstr fname ks l) -> ROK D s) ->
+  Lemma exec_ders ks : forall l ops, Forall2 (der_op_ok D ks) l ops ->
     forall ids m0, fresh (keys l) ids ->
-    exists ds', exec_ops E D (der_ops ks sl) (ids, m0) = Built (rev (keys l) ++ ids, set_der m0 (m_der m0 ++ ds'))
+    exists ds', exec_ops E D ops (ids, m0) = Built (rev (keys l) ++ ids, set_der m0 (m_der m0 ++ ds'))
                 /\ Forall2 (der_rel (frel D)) l ds'.
   Proof.
-    induction l as [|[k [f a]] r IH]; intros sl Hs Hrok ids m0 Hf; simpl in Hs.
-    - inversion Hs; subst. exists []. split; [|constructor].
-      cbn. unfold set_der. rewrite app_nil_r. destruct m0; reflexivity.
-    - unfold fn_to_symbolic_repr in Hs. destruct (translate f a) as [e|] eqn:Ht; [|discriminate].
-      destruct (sym_derived E fname translate r) as [sr|] eqn:Hr; [|discriminate].
-      inversion Hs; subst sl; clear Hs.
-      cbn [keys map fst] in Hf. apply fresh_tail in Hf. destruct Hf as [Hk1 [Hk2 Hf]].
-      destruct (Hrok (mkSlot (key_of nstr ks k (fname f)) f a)) as [f' [Hres HR]]; [cbn; left; reflexivity|].
-      cbn [sl_key sl_fn] in Hres, HR.
-      destruct (IH _ eq_refl (fun s Hs => Hrok s (or_intror Hs)) (k :: ids) (set_der m0 (m_der m0 ++ [(k, mkDer f' a)])) Hf)
-        as [ds' [Hex Hrel]].
+    induction 1 as [|[k [f a]] op r ops [n [Hop Hgood]] _ IH]; intros ids m0 Hf.
+    - exists []. split; [|constructor]. cbn. unfold set_der. rewrite app_nil_r. destruct m0; reflexivity.
+    - cbn [keys map fst] in Hf. apply fresh_tail in Hf. destruct Hf as [Hk1 [Hk2 Hf]].
+      cbn [fst snd d_fn d_args] in Hop, Hgood. subst op.
+      destruct (Good_resolve _ _ Hgood) as [f' [Hres HR]]. cbn [sl_args sl_fn] in HR.
+      destruct (IH (k :: ids) (set_der m0 (m_der m0 ++ [(k, mkDer f' a)])) Hf) as [ds' [Hex Hrel]].
       exists ((k, mkDer f' a) :: ds'). split.
-      + cbn [der_ops map fst snd sf_name sf_args exec_ops exec_op obind].
-        rewrite Hres. cbn [obind].
+      + cbn [exec_ops exec_op obind]. rewrite Hres. cbn [obind].
         rewrite (insert_id_ok _ _ Hk1 Hk2). cbn [obind].
-        fold (set_der m0 (m_der m0 ++ [(k, mkDer f' a)])). fold (der_ops ks sr). rewrite Hex.
+        fold (set_der m0 (m_der m0 ++ [(k, mkDer f' a)])). rewrite Hex.
         cbn [keys map fst rev]. unfold set_der; cbn [m_par m_var m_der m_rxn m_sur m_ro m_dat].
         rewrite <- !app_assoc. reflexivity.
       + constructor; [split; [reflexivity|split; [exact HR|reflexivity]]|exact Hrel].
   Qed.
 
-  Lemma resolve_stoich_ok ks k : forall st sst,
-    sym_stoich E fname translate st = Some sst ->
-    (forall s, In s (sto_slots nstr fname ks k st) -> ROK D s) ->
-    exists st', resolve_stoich E D (sto_refs ks k sst) = Built st' /\ Forall2 (coef_rel (frel D)) st st'.
+  Lemma resolve_stoich_ok ks k : forall st refs, Forall2 (coefref_ok D ks k) st refs ->
+    exists st', resolve_stoich E D refs = Built st' /\ Forall2 (coef_rel (frel D)) st st'.
   Proof.
-    induction st as [|[c v] r IH]; intros sst Hs Hrok; simpl in Hs.
-    - inversion Hs; subst. exists []. split; [reflexivity|constructor].
-    - destruct (sym_coef E fname translate v) as [sc|] eqn:Hv; [|discriminate].
-      destruct (sym_stoich E fname translate r) as [sr|] eqn:Hr; [|discriminate].
-      inversion Hs; subst sst; clear Hs.
-      destruct v as [q|f a]; simpl in Hv.
-      + inversion Hv; subst sc; clear Hv.
-        destruct (IH _ eq_refl (fun s Hs => Hrok s Hs)) as [st' [Hex Hrel]].
-        exists ((c, CStat q) :: st'). split.
-        * cbn [sto_refs map fst snd coefref_of resolve_stoich resolve_coef obind].
-          fold (sto_refs ks k sr). rewrite Hex. reflexivity.
+    induction 1 as [|[c v] [c' cr] r refs [Hc Hcr] _ IH].
+    - exists []. split; [reflexivity|constructor].
+    - cbn [fst snd] in Hc, Hcr. subst c'. destruct IH as [st' [Hex Hrel]].
+      destruct v as [q|f a].
+      + subst cr. exists ((c, CStat q) :: st'). split.
+        * cbn [resolve_stoich resolve_coef obind]. rewrite Hex. reflexivity.
         * constructor; [split; reflexivity|exact Hrel].
-      + unfold fn_to_symbolic_repr in Hv. destruct (translate f a) as [e|] eqn:Ht; [|discriminate].
-        inversion Hv; subst sc; clear Hv.
-        destruct (Hrok (mkSlot (key_of nstr ks k (fname f)) f a)) as [f' [Hres HR]]; [cbn; left; reflexivity|].
-        cbn [sl_key sl_fn] in Hres, HR.
-        destruct (IH _ eq_refl (fun s Hs => Hrok s (or_intror Hs))) as [st' [Hex Hrel]].
+      + destruct Hcr as [n [-> Hgood]]. destruct (Good_resolve _ _ Hgood) as [f' [Hres HR]].
+        cbn [sl_args sl_fn] in HR.
         exists ((c, CDyn f' a) :: st'). split.
-        * cbn [sto_refs map fst snd coefref_of sf_name sf_args resolve_stoich resolve_coef obind].
-          rewrite Hres. cbn [obind]. fold (sto_refs ks k sr). rewrite Hex. reflexivity.
+        * cbn [resolve_stoich resolve_coef obind]. rewrite Hres. cbn [obind]. rewrite Hex. reflexivity.
         * constructor; [split; [reflexivity|split; [exact HR|reflexivity]]|exact Hrel].
   Qed.
 
-  Lemma exec_rxns ksr kss : forall l sl,
-    sym_reactions E fname translate l = Some sl ->
-    (forall s, In s (rxn_slots nstr fname ksr kss l) -> ROK D s) ->
+  Lemma exec_rxns ksr kss : forall l ops, Forall2 (rxn_op_ok D ksr kss) l ops ->
     forall ids m0, fresh (keys l) ids ->
-    exists rs', exec_ops E D (rxn_ops ksr kss sl) (ids, m0) = Built (rev (keys l) ++ ids, set_rxn m0 (m_rxn m0 ++ rs'))
+    exists rs', exec_ops E D ops (ids, m0) = Built (rev (keys l) ++ ids, set_rxn m0 (m_rxn m0 ++ rs'))
                 /\ Forall2 (rxn_rel (frel D)) l rs'.
   Proof.
-    induction l as [|[k [f a st]] r IH]; intros sl Hs Hrok ids m0 Hf; simpl in Hs.
-    - inversion Hs; subst. exists []. split; [|constructor].
-      cbn. unfold set_rxn. rewrite app_nil_r. destruct m0; reflexivity.
-    - unfold fn_to_symbolic_repr in Hs. destruct (translate f a) as [e|] eqn:Ht; [|discriminate].
-      destruct (sym_stoich E fname translate st) as [sst|] eqn:Hst; [|discriminate].
-      destruct (sym_reactions E fname translate r) as [sr|] eqn:Hr; [|discriminate].
-      inversion Hs; subst sl; clear Hs.
-      cbn [keys map fst] in Hf. apply fresh_tail in Hf. destruct Hf as [Hk1 [Hk2 Hf]].
-      destruct (Hrok (mkSlot (key_of nstr ksr k (fname f)) f a)) as [f' [Hres HR]]; [cbn; left; reflexivity|].
-      cbn [sl_key sl_fn] in Hres, HR.
-      destruct (resolve_stoich_ok kss k st sst Hst) as [st' [Hsto Hstrel]].
-      { intros s Hs. apply Hrok. cbn. right. apply in_or_app. left. exact Hs. }
-      destruct (IH _ eq_refl (fun s Hs => Hrok s (or_intror (in_or_app _ _ _ (or_intror Hs)))) (k :: ids)
-                   (set_rxn m0 (m_rxn m0 ++ [(k, mkRxn f' a st')])) Hf)
-        as [rs' [Hex Hrel]].
+    induction 1 as [|[k [f a st]] op r ops [n [sto [Hop [Hgood Hsto]]]] _ IH]; intros ids m0 Hf.
+    - exists []. split; [|constructor]. cbn. unfold set_rxn. rewrite app_nil_r. destruct m0; reflexivity.
+    - cbn [keys map fst] in Hf. apply fresh_tail in Hf. destruct Hf as [Hk1 [Hk2 Hf]].
+      cbn [fst snd r_fn r_args r_st] in Hop, Hgood, Hsto. subst op.
+      destruct (Good_resolve _ _ Hgood) as [f' [Hres HR]]. cbn [sl_args sl_fn] in HR.
+      destruct (resolve_stoich_ok kss k st sto Hsto) as [st' [Hsres Hstrel]].
+      destruct (IH (k :: ids) (set_rxn m0 (m_rxn m0 ++ [(k, mkRxn f' a st')])) Hf) as [rs' [Hex Hrel]].
       exists ((k, mkRxn f' a st') :: rs'). split.
-      + cbn [rxn_ops map fst snd sf_name sf_args sr_fn sr_st exec_ops exec_op obind].
-        rewrite Hres. cbn [obind]. rewrite Hsto. cbn [obind].
+      + cbn [exec_ops exec_op obind]. rewrite Hres. cbn [obind]. rewrite Hsres. cbn [obind].
         rewrite (insert_id_ok _ _ Hk1 Hk2). cbn [obind].
-        fold (set_rxn m0 (m_rxn m0 ++ [(k, mkRxn f' a st')])). fold (rxn_ops ksr kss sr). rewrite Hex.
+        fold (set_rxn m0 (m_rxn m0 ++ [(k, mkRxn f' a st')])). rewrite Hex.
         cbn [keys map fst rev]. unfold set_rxn; cbn [m_par m_var m_der m_rxn m_sur m_ro m_dat].
         rewrite <- !app_assoc. reflexivity.
       + constructor; [|exact Hrel].
@@ -603,68 +733,152 @@ Section Proofs.
     - exact (IH Hr Hx Hb).
   Qed.
 
+  Lemma NoDup_app_l {A} (a b : list A) : NoDup (a ++ b) -> NoDup a.
+  Proof.
+    induction a as [|y a IH]; simpl; intros Hnd; [constructor|].
+    inversion Hnd as [|z l Hn Hr]; subst. constructor.
+    - intro Hy. apply Hn. apply in_or_app. left. exact Hy.
+    - exact (IH Hr).
+  Qed.
+
+  Lemma NoDup_app_r {A} (a b : list A) : NoDup (a ++ b) -> NoDup b.
+  Proof.
+    induction a as [|y a IH]; simpl; intros Hnd; [exact Hnd|].
+    inversion Hnd as [|z l Hn Hr]; subst. exact (IH Hr).
+  Qed.
+
   Lemma fresh_seq a b ids : fresh (a ++ b) ids -> fresh a ids /\ fresh b (rev a ++ ids).
   Proof.
     intros [Hnd Hf]. split; split.
-    - exact (NoDup_app_remove_r _ _ Hnd).
+    - exact (NoDup_app_l _ _ Hnd).
     - intros k Hk. apply Hf. apply in_or_app. left. exact Hk.
-    - exact (NoDup_app_remove_l _ _ Hnd).
+    - exact (NoDup_app_r _ _ Hnd).
     - intros k Hk. destruct (Hf k (in_or_app _ _ _ (or_intror Hk))) as [H1 H2]. split; [|exact H2].
       intros Hin. apply in_app_or in Hin. destruct Hin as [Hin|Hin]; [|contradiction].
       apply in_rev in Hin. exact (NoDup_app_disjoint _ _ _ Hnd Hin Hk).
   Qed.
 
-  Lemma roundtrip_partial F m c :
+  (** the structural round trip, for any way of storing definitions that meets [reg_spec] *)
+  Lemma roundtrip_struct F m c :
+    gf_register F = rm ->
+    (forall s, In s (slots nstr fname F m) -> InS s) ->
+    (forall d, DictOK d -> (c_renamed (generate_from_symrepr E nstr same_fn F (mkSymRepr [] [] [] [])) || defs_compile E d) = true) ->
     UniqueIds m ->
-    (forall s, In s (slots nstr fname F m) -> NoDup (sl_args s)) ->
-    (forall s1 s2, In s1 (slots nstr fname F m) -> In s2 (slots nstr fname F m) ->
-                   sl_key s1 = sl_key s2 -> forall vs, fsem (sl_fn s1) vs = fsem (sl_fn s2) vs) ->
-    generate E nstr fname translate F m = Some c ->
+    generate E nstr fname translate same_fn F m = Some c ->
     exists m', exec_code E c = Built m' /\ model_rel (frel (c_defs c)) m m'.
   Proof.
-    intros [Hnd Htime] Hargs Hndf Hgen. unfold generate in Hgen.
+    intros Hrm Hin Hcomp [Hnd Htime] Hgen. unfold generate in Hgen.
     destruct (to_symbolic_repr E fname translate m) as [sym|] eqn:Hsym; [|discriminate].
     inversion Hgen; subst c; clear Hgen.
-    rewrite generate_from_symrepr_spec. cbn [c_defs].
-    pose proof (to_symbolic_repr_writes F m sym Hsym) as HF.
-    pose proof (resolve_ok _ _ HF Hargs Hndf) as Hrok.
-    pose proof (compile_ok _ _ HF Hargs) as Hcomp.
-    set (D := fold_left wr (all_writes F sym) []) in *.
     unfold to_symbolic_repr in Hsym.
     destruct (sym_values E fname translate (m_var m)) as [vs|] eqn:H1; [|discriminate].
     destruct (sym_values E fname translate (m_par m)) as [ps|] eqn:H2; [|discriminate].
     destruct (sym_derived E fname translate (m_der m)) as [ds|] eqn:H3; [|discriminate].
     destruct (sym_reactions E fname translate (m_rxn m)) as [rs|] eqn:H4; [|discriminate].
-    inversion Hsym; subst sym; clear Hsym. cbn [sy_var sy_par sy_der sy_rxn] in *.
+    inversion Hsym; subst sym; clear Hsym.
+    unfold slots in Hin.
+    destruct (gen_variables_ok (gf_var_key F) _ _ H1) with (d := @nil (string * (E * list name))) as [o1 [d1 [Hg1 [He1 [Hd1 Hok1]]]]];
+      [intros s Hs; apply Hin; apply in_or_app; left; exact Hs|].
+    destruct (gen_parameters_ok (gf_par_key F) _ _ H2) with (d := d1) as [o2 [d2 [Hg2 [He2 [Hd2 Hok2]]]]];
+      [intros s Hs; apply Hin; apply in_or_app; right; apply in_or_app; left; exact Hs|].
+    destruct (gen_derived_ok (gf_der_key F) _ _ H3) with (d := d2) as [o3 [d3 [Hg3 [He3 [Hd3 Hok3]]]]];
+      [intros s Hs; apply Hin; apply in_or_app; right; apply in_or_app; right; apply in_or_app; left; exact Hs|].
+    destruct (gen_reactions_ok (gf_rxn_key F) (gf_sto_key F) _ _ H4) with (d := d3) as [o4 [d4 [Hg4 [He4 [Hd4 Hok4]]]]];
+      [intros s Hs; apply Hin; apply in_or_app; right; apply in_or_app; right; apply in_or_app; right; exact Hs|].
+    assert (Hcode : generate_from_symrepr E nstr same_fn F (mkSymRepr vs ps ds rs) =
+                    mkCode d4 (o1 ++ o2 ++ o3 ++ o4) (match gf_register F with RegFresh => true | _ => false end)).
+    { unfold generate_from_symrepr. cbv zeta. cbn [sy_var sy_par sy_der sy_rxn]. rewrite Hrm, Hg1, Hg2, Hg3, Hg4. reflexivity. }
+    rewrite Hcode. cbn [c_defs].
+    pose proof (Hok1 d4 (Ext_trans _ _ _ He2 (Ext_trans _ _ _ He3 He4))) as Hv.
+    pose proof (Hok2 d4 (Ext_trans _ _ _ He3 He4)) as Hp.
+    pose proof (Hok3 d4 He4) as Hd.
+    pose proof (Hok4 d4 (Ext_refl _)) as Hr.
     assert (Hfr : fresh (all_ids m) []).
     { split; [exact Hnd|]. intros k Hk. split; [intros []|]. intro; subst. contradiction. }
     unfold all_ids in Hfr.
     apply fresh_seq in Hfr. destruct Hfr as [Hf1 Hfr].
     apply fresh_seq in Hfr. destruct Hfr as [Hf2 Hfr].
     apply fresh_seq in Hfr. destruct Hfr as [Hf3 Hf4].
-    unfold slots in Hrok.
-    destruct (exec_vars D (gf_var_key F) _ _ H1) with (ids := @nil name) (m0 := empty_model) as [vs' [Hx1 Hr1]];
-      [intros s Hs; apply Hrok; apply in_or_app; left; exact Hs | exact Hf1 |].
-    destruct (exec_pars D (gf_par_key F) _ _ H2) with (ids := rev (keys (m_var m)) ++ [])
-                                                       (m0 := set_var empty_model (m_var empty_model ++ vs'))
-      as [ps' [Hx2 Hr2]];
-      [intros s Hs; apply Hrok; apply in_or_app; right; apply in_or_app; left; exact Hs | exact Hf2 |].
+    destruct (exec_vars d4 _ _ _ Hv [] empty_model Hf1) as [vs' [Hx1 Hr1]].
+    destruct (exec_pars d4 _ _ _ Hp _ (set_var empty_model (m_var empty_model ++ vs')) Hf2) as [ps' [Hx2 Hr2]].
     match type of Hx2 with _ = Built (?i, ?mm) => set (ids2 := i) in *; set (m2 := mm) in * end.
-    destruct (exec_ders D (gf_der_key F) _ _ H3) with (ids := ids2) (m0 := m2) as [ds' [Hx3 Hr3]];
-      [intros s Hs; apply Hrok; apply in_or_app; right; apply in_or_app; right; apply in_or_app; left; exact Hs
-      | exact Hf3 |].
+    destruct (exec_ders d4 _ _ _ Hd ids2 m2 Hf3) as [ds' [Hx3 Hr3]].
     match type of Hx3 with _ = Built (?i, ?mm) => set (ids3 := i) in *; set (m3 := mm) in * end.
-    destruct (exec_rxns D (gf_rxn_key F) (gf_sto_key F) _ _ H4) with (ids := ids3) (m0 := m3) as [rs' [Hx4 Hr4]];
-      [intros s Hs; apply Hrok; apply in_or_app; right; apply in_or_app; right; apply in_or_app; right; exact Hs
-      | exact Hf4 |].
+    destruct (exec_rxns d4 _ _ _ _ Hr ids3 m3 Hf4) as [rs' [Hx4 Hr4]].
     eexists. split.
-    - unfold exec_code. cbn [c_defs c_ops]. rewrite Hcomp. cbn [negb].
-      rewrite !exec_ops_app. rewrite Hx1. cbn [obind]. rewrite Hx2. cbn [obind].
-      rewrite Hx3. cbn [obind]. rewrite Hx4. cbn [obind snd]. reflexivity.
+    - unfold exec_code. cbn [c_defs c_ops c_renamed].
+      assert (Hc : ((match gf_register F with RegFresh => true | _ => false end) || defs_compile E d4) = true).
+      { specialize (Hcomp d4). unfold generate_from_symrepr in Hcomp. cbn in Hcomp. apply Hcomp.
+        apply Hd4, Hd3, Hd2, Hd1. intros x []. }
+      rewrite Hc. cbn [negb].
+      rewrite exec_ops_app, Hx1. cbn [obind]. rewrite exec_ops_app, Hx2. cbn [obind].
+      rewrite exec_ops_app, Hx3. cbn [obind]. rewrite Hx4. cbn [obind snd]. reflexivity.
     - subst m3 m2. unfold model_rel, set_rxn, set_der, set_par, set_var, empty_model.
       cbn [m_par m_var m_der m_rxn m_sur m_ro m_dat app].
       repeat split; assumption.
   Qed.
+  End Alloc.
+
+  (** ---- the two ways of storing definitions -------------------------------------------------- *)
+
+  (** the snapshot: [functions[key] = ...], last writer wins *)
+  Lemma roundtrip_overwrite (arity : fnid -> nat) F m c :
+    gf_register F = RegOverwrite ->
+    (forall f margs e, translate f margs = Some e -> length margs = arity f) ->
+    (forall f vs, length vs <> arity f -> fsem f vs = None) ->
+    UniqueIds m ->
+    (forall s, In s (slots nstr fname F m) -> NoDup (sl_args s)) ->
+    (forall s1 s2, In s1 (slots nstr fname F m) -> In s2 (slots nstr fname F m) ->
+                   sl_key s1 = sl_key s2 -> forall vs, fsem (sl_fn s1) vs = fsem (sl_fn s2) vs) ->
+    generate E nstr fname translate same_fn F m = Some c ->
+    exists m', exec_code E c = Built m' /\ model_rel (frel (c_defs c)) m m'.
+  Proof.
+    intros Hrm Har Hfa Hu Hargs Hndf Hgen.
+    apply (roundtrip_struct RegOverwrite (fun s n => n = sl_key s) (fun s => In s (slots nstr fname F m))
+                            (fun p => NoDup (snd p))) with (F := F) (m := m); try assumption.
+    - (* reg_spec *)
+      intros [k [e a]] s d Hs [Hk [Ha Ht]]. cbn [fst snd] in *. subst k a.
+      exists (sl_key s). split; [reflexivity|]. split; [reflexivity|]. split; [exact (Hargs s Hs)|].
+      intros s0 Hs0 [Hn0 _] en vs _. cbn [fst snd].
+      rewrite (defsem_sound arity _ _ _ Har Hfa Ht (Hargs s Hs)).
+      symmetry. apply Hndf; [exact Hs0|exact Hs|symmetry; exact Hn0].
+    - intros s Hs. exact Hs.
+    - intros d Hd. cbn. rewrite Hrm. cbn. unfold defs_compile. apply forallb_forall. intros x Hx.
+      apply nodupN_true. exact (Hd x Hx).
+  Qed.
+
+  (** the repaired generator: [_register_fn] / [_parameter_names] *)
+  Lemma roundtrip_fresh F m c :
+    gf_register F = RegFresh ->
+    (forall q p, same_fn q p = true -> forall vs, defsem E eval (fst q) (snd q) vs = defsem E eval (fst p) (snd p) vs) ->
+    UniqueIds m ->
+    generate E nstr fname translate same_fn F m = Some c ->
+    exists m', exec_code E c = Built m' /\ model_rel (frel (c_defs c)) m m'.
+  Proof.
+    intros Hrm Hsame Hu Hgen.
+    apply (roundtrip_struct RegFresh (fun _ _ => True) (fun _ => True) (fun _ => True)) with (F := F) (m := m);
+      try assumption; try (intros; exact I).
+    - (* reg_spec *)
+      intros [k p] s d _ Hws. cbn [fst snd] in *. unfold register.
+      destruct (find_name E same_fn (S (length d)) k 0 p d) as [n|] eqn:Hfn;
+        [|exfalso; exact (find_name_total E same_fn k p d Hfn)].
+      exists n. split; [reflexivity|]. split; [exact I|]. split; [exact I|].
+      intros s0 _ [_ [q [Hl Hsem]]] en vs Hvs.
+      destruct (find_name_some E same_fn _ _ _ _ _ _ Hfn) as [Hnone|[q' [Hl' Hs']]]; [congruence|].
+      rewrite Hl in Hl'. inversion Hl'; subst q'. rewrite <- (Hsame _ _ Hs' vs). exact (Hsem en vs Hvs).
+    - intros d _. cbn. rewrite Hrm. reflexivity.
+  Qed.
+
+  (** ---- from "same structure, interchangeable functions" to "same behaviour" --------------- *)
+
+  Lemma frel_sem D a f f' : frel D a f f' ->
+    forall e vs, lookups a e = Some vs -> fsem f vs = fsem_gen E eval D f' vs.
+  Proof. intros H. exact H. Qed.
+
+  Lemma rebuilt_same_behaviour fsemN SF D m m' :
+    model_rel (frel D) m m' -> m_sur m = [] -> m_dat m = [] ->
+    same_behaviour fsem (fsem_gen E eval D) fsemN SF m m'.
+  Proof. intros H Hs Hd. exact (model_rel_same_behaviour fsem (fsem_gen E eval D) fsemN (frel D) (frel_sem D) SF m m' H Hs Hd). Qed.
 
   (** ---- refusal ---------------------------------------------------------------------------- *)
 
@@ -742,7 +956,7 @@ Section Proofs.
   Qed.
 
   Lemma generate_none_iff F m :
-    generate E nstr fname translate F m = None <->
+    generate E nstr fname translate same_fn F m = None <->
     exists s, In s (slots nstr fname F m) /\ translate (sl_fn s) (sl_args s) = None.
   Proof.
     rewrite <- Exists_exists. unfold generate, to_symbolic_repr, slots.
@@ -758,26 +972,81 @@ Section Proofs.
 
   Lemma untranslatable_raises F m :
     (exists s, In s (slots nstr fname F m) /\ translate (sl_fn s) (sl_args s) = None) ->
-    roundtrip E nstr fname translate F m = GenRaises.
+    roundtrip E nstr fname translate same_fn F m = GenRaises.
   Proof. intros H. apply generate_none_iff in H. unfold roundtrip. rewrite H. reflexivity. Qed.
 
-  Lemma roundtrip_raises_only_if F m :
-    roundtrip E nstr fname translate F m = GenRaises ->
+
+  Lemma roundtrip_raises_iff F m :
+    roundtrip E nstr fname translate same_fn F m = GenRaises <->
     exists s, In s (slots nstr fname F m) /\ translate (sl_fn s) (sl_args s) = None.
   Proof.
-    intros H. apply generate_none_iff. unfold roundtrip in H.
-    destruct (generate E nstr fname translate F m) as [c|]; [|reflexivity].
-    exfalso. unfold exec_code in H. destruct (negb (defs_compile E (c_defs c))); [discriminate|].
-    destruct (exec_ops E (c_defs c) (c_ops c) ([], empty_model)) eqn:Hx; cbn in H; try discriminate.
-    revert Hx. generalize (c_ops c) (@nil name, empty_model). clear H.
-    intros ops. induction ops as [|op r IH]; intros st; simpl; [discriminate|].
-    destruct (exec_op E (c_defs c) op st) eqn:Ho; simpl; try discriminate; [apply IH|].
-    exfalso. destruct st as [ids mm]. destruct op; cbn in Ho.
-    all: repeat match type of Ho with
-                | context [resolve_val E ?d ?v] => destruct v; cbn in Ho
-                | context [resolve E ?d ?k] => unfold resolve in Ho; destruct (sfind k d); cbn in Ho
-                | context [insert_id ?k ?i] => unfold insert_id in Ho; destruct (N.eqb k time_name); [discriminate|]; destruct (memN k i); cbn in Ho
-                | _ => discriminate
-                end.
-  Abort.
+    rewrite <- generate_none_iff. unfold roundtrip.
+    destruct (generate E nstr fname translate same_fn F m) as [c|]; [|split; reflexivity].
+    split; [|discriminate]. intros H. exfalso.
+    pose proof (exec_code_nr E c) as Hnr. destruct (exec_code E c); cbn in H; try discriminate. contradiction.
+  Qed.
+
+  (** generation succeeded, the last definition stored under some key repeats a parameter, and the
+      parameters are emitted as they are: the generated source does not compile *)
+  Lemma duplicate_parameter_syntax_error (c : code E) k b ps :
+    c_renamed c = false -> In (k, (b, ps)) (c_defs c) -> ~ NoDup ps -> exec_code E c = ExecSyntax.
+  Proof.
+    intros Hr Hin Hnd. unfold exec_code. rewrite Hr. cbn [orb].
+    destruct (defs_compile E (c_defs c)) eqn:Hc; [|reflexivity]. exfalso. apply Hnd.
+    unfold defs_compile in Hc. rewrite forallb_forall in Hc. specialize (Hc _ Hin). cbn in Hc.
+    clear - Hc. induction ps as [|x r IH]; [constructor|]. cbn in Hc. apply andb_prop in Hc. destruct Hc as [H1 H2].
+    constructor; [|exact (IH H2)]. apply memN_false. destruct (memN x r); [discriminate|reflexivity].
+  Qed.
 End Proofs.
+
+(** ---- the two round-trip theorems in the form PropsC11.v states them ------------------------- *)
+
+Lemma roundtrip_full
+  (E : Type) (nstr : name -> string) (fname : fnid -> string)
+  (translate : fnid -> list name -> option E) (eval : E -> env -> option Z)
+  (same_fn : E * list name -> E * list name -> bool)
+  (fsem : fnid -> list Z -> option Z) (fsemN : fnid -> list Z -> option (list Z)) (SF : sort_facts) :
+  (forall f margs e, translate f margs = Some e ->
+     forall en vs, lookups margs en = Some vs -> eval e en = fsem f vs) ->
+  (forall q p, same_fn q p = true ->
+     forall vs, defsem E eval (fst q) (snd q) vs = defsem E eval (fst p) (snd p) vs) ->
+  forall F m c,
+    gf_register F = RegFresh ->
+    UniqueIds m -> m_sur m = [] -> m_dat m = [] ->
+    generate E nstr fname translate same_fn F m = Some c ->
+    exists m', exec_code E c = Built m'
+      /\ same_behaviour fsem (fsem_gen E eval (c_defs c)) fsemN SF m m'.
+Proof.
+  intros Hts Hsame F m c Hrm Hu Hsur Hdat Hgen.
+  destruct (roundtrip_fresh E nstr fname translate eval same_fn fsem Hts F m c Hrm Hsame Hu Hgen) as [m' [Hx Hrel]].
+  exists m'. split; [exact Hx|].
+  exact (rebuilt_same_behaviour E eval fsem fsemN SF (c_defs c) m m' Hrel Hsur Hdat).
+Qed.
+
+Lemma roundtrip_guarded
+  (E : Type) (nstr : name -> string) (fname : fnid -> string)
+  (translate : fnid -> list name -> option E) (eval : E -> env -> option Z)
+  (same_fn : E * list name -> E * list name -> bool)
+  (fsem : fnid -> list Z -> option Z) (arity : fnid -> nat)
+  (fsemN : fnid -> list Z -> option (list Z)) (SF : sort_facts) :
+  (forall f margs e, translate f margs = Some e ->
+     forall en vs, lookups margs en = Some vs -> eval e en = fsem f vs) ->
+  (forall f margs e, translate f margs = Some e -> length margs = arity f) ->
+  (forall f vs, length vs <> arity f -> fsem f vs = None) ->
+  forall F m c,
+    gf_register F = RegOverwrite ->
+    UniqueIds m -> m_sur m = [] -> m_dat m = [] ->
+    (forall s, In s (slots nstr fname F m) -> NoDup (sl_args s)) ->
+    (forall s1 s2, In s1 (slots nstr fname F m) -> In s2 (slots nstr fname F m) ->
+                   sl_key s1 = sl_key s2 -> forall vs, fsem (sl_fn s1) vs = fsem (sl_fn s2) vs) ->
+    generate E nstr fname translate same_fn F m = Some c ->
+    exists m', exec_code E c = Built m'
+      /\ same_behaviour fsem (fsem_gen E eval (c_defs c)) fsemN SF m m'.
+Proof.
+  intros Hts Har Hfa F m c Hrm Hu Hsur Hdat Hargs Hndf Hgen.
+  destruct (roundtrip_overwrite E nstr fname translate eval same_fn fsem Hts arity F m c Hrm Har Hfa Hu Hargs Hndf Hgen)
+    as [m' [Hx Hrel]].
+  exists m'. split; [exact Hx|].
+  exact (rebuilt_same_behaviour E eval fsem fsemN SF (c_defs c) m m' Hrel Hsur Hdat).
+Qed.
+
